@@ -19,6 +19,12 @@ func VFRun(env *vfc.Env) {
 		vfProto(env)
 	case "db.c17":
 		vfC17(env)
+	case "db.c07":
+		vfC07(env)
+	case "db.c06":
+		vfC06(env)
+	case "db.crashb":
+		vfCrashB(env)
 	case "db.c05":
 		vfC05(env)
 	case "db.c04":
